@@ -15,17 +15,17 @@ import CrabModel.Num.ZNum
   (the *private* constructor `wrapint(n, width, mod)` does NOT reduce; the public one does,
   when `width < 64`).
 
-  `none` = `CRAB_ERROR` **or** C++ undefined behaviour (shift of a `uint64_t` by 64 or more);
-  the places that are undefined behaviour are singled out by the predicates `ubShift`,
-  `ubAshr` below (for those inputs the model has no opinion on what the compiled code
-  returns).  They need a shift amount ≥ 64 (`<<`, `lshr`, `ashr`) or, for `ashr` of a
-  negative value, an amount larger than the width.
+  `none` = `CRAB_ERROR`.  No C++ undefined behaviour is left on objects that satisfy the class
+  invariant: every uint64 shift is executed with an amount `< _width ≤ 64` (`<<`, `lshr`, `ashr`
+  return 0 / the sign fill for an amount of the bitwidth or more), `sext(0)` and
+  `keep_lower` avoid the shift by 64.
 
   Class invariant established by all constructors: `1 ≤ width ≤ 64` and `n < 2^64` (`WF`);
   the header's `0 <= _n <= 2^_width - 1` is `Reduced`.
 
-  (State of the code: after the fixes `abc4058` (ashr masks the bits above the width, amount 0
-  returns `*this`), `74d5f3a` (sdiv by -1 is negation), `df282ba` (keep_lower mask, sext(0)).)
+  (State of the code: after the fixes to ashr (bits above the width masked, amount 0 returns
+  `*this`), sdiv (division by -1 is negation), keep_lower / sext(0) (no shift by 64) and to the
+  three shifts (amount of the bitwidth or more).)
 -/
 namespace Crab
 
@@ -217,36 +217,29 @@ def le? (a b : WrapInt) : Option Bool := if a.width = b.width then some (decide 
 def gt? (a b : WrapInt) : Option Bool := if a.width = b.width then some (decide (a.n > b.n)) else none
 def ge? (a b : WrapInt) : Option Bool := if a.width = b.width then some (decide (a.n ≥ b.n)) else none
 
-/-- `operator<<` / `lshr` shift the uint64 `_n` by the uint64 `x._n`: undefined when `x._n ≥ 64` -/
-def ubShift (_a b : WrapInt) : Bool := decide (b.n ≥ 64)
-
-/-- `operator<<` : `(_n << x._n)` on uint64, then `% _mod` -/
+/-- `operator<<` : a shift by the bitwidth or more returns 0; otherwise `(_n << x._n)` on uint64
+    (`x._n < _width ≤ 64`: defined), then `% _mod` -/
 def shl (a b : WrapInt) : Option WrapInt :=
   if a.width = b.width then
-    if ubShift a b then none   -- undefined behaviour
+    if b.n ≥ a.width then some ⟨a.width, 0⟩
     else some ⟨a.width, red a.width ((a.n <<< b.n) % 2 ^ 64)⟩
   else none
 
-/-- `lshr` : `_n >> x._n`, private constructor -/
+/-- `lshr` : a shift by the bitwidth or more returns 0; otherwise `_n >> x._n`, private constructor -/
 def lshr (a b : WrapInt) : Option WrapInt :=
   if a.width = b.width then
-    if ubShift a b then none   -- undefined behaviour
+    if b.n ≥ a.width then some ⟨a.width, 0⟩
     else some ⟨a.width, a.n >>> b.n⟩
   else none
 
-/-- `ashr` with amount 0 returns `*this`.  Otherwise it is undefined when the value shift
-    `_n >> x._n` is (`x._n ≥ 64`) or, on the msb branch, when
-    `all_ones << (uint64_t)(_width - x._n)` is: the uint64 difference wraps around when
-    `x._n > _width`. -/
-def ubAshr (a b : WrapInt) : Bool :=
-  !(b.n == 0) && (decide (b.n ≥ 64) || (a.msb && decide (b.n > a.width)))
-
-/-- `ashr`.  On the msb branch `(only_upper_bits_ones | (_n >> x._n)) & all_ones` (private
+/-- `ashr`.  Amount 0 returns `*this`; an amount of the bitwidth or more returns the sign fill
+    (`get_unsigned_max(_width)` or 0).  Otherwise `0 < x._n < _width ≤ 64` and both C++ shifts
+    are defined; on the msb branch `(only_upper_bits_ones | (_n >> x._n)) & all_ones` (private
     constructor, no further reduction). -/
 def ashr (a b : WrapInt) : Option WrapInt :=
   if a.width = b.width then
     if b.n == 0 then some a
-    else if ubAshr a b then none   -- undefined behaviour
+    else if b.n ≥ a.width then (if a.msb then unsignedMax? a.width else some ⟨a.width, 0⟩)
     else if !a.msb then some ⟨a.width, a.n >>> b.n⟩
     else
       let allOnes : Nat := if a.width < 64 then ((1 <<< a.width) % 2 ^ 64 + 2 ^ 64 - 1) % 2 ^ 64 else 2 ^ 64 - 1
